@@ -346,8 +346,9 @@ class Canon:
         def walk(body, prefix, cls):
             for st in body:
                 if isinstance(st, (ast.FunctionDef, ast.AsyncFunctionDef)):
-                    out.append((prefix + st.name, st, body, cls))
-                    walk(st.body, prefix + st.name + ".", None)
+                    q = vq(st, prefix)
+                    out.append((q, st, body, cls))
+                    walk(st.body, q + ".", None)
                 elif isinstance(st, ast.ClassDef):
                     walk(st.body, prefix + st.name + ".", st.name)
                 elif isinstance(st, (ast.If, ast.Try, ast.With, ast.For, ast.While)):
@@ -381,9 +382,13 @@ class Canon:
             return False
         return True
 
-    def _bind(self, fn, call, is_method, receiver):
-        """parameter -> argument expression, or None when the call cannot be bound simply"""
+    _caller_names: set = set()
+
+    def _bind(self, fn, call, is_method, receiver, pre=None):
+        """parameter -> argument expression, or None when the call cannot be bound; `pre` (a list) receives the assignments
+        `param = argument` that have to run before the inlined body"""
         params = [a.arg for a in fn.args.args]
+        params_all = list(params)
         mapping = {}
         if is_method:
             if not params:
@@ -409,13 +414,19 @@ class Canon:
                     mapping[p] = defaults[p]
                 else:
                     return None
-        if not all(_simple(v) or _pure_literal(v) for v in mapping.values()):
-            return None
-        # a parameter that the helper assigns to must be bound to a plain name
+        # a parameter the helper rebinds, or one bound to an argument that is not a plain read, becomes a local that is
+        # assigned the argument before the body (arguments are evaluated left to right before the call, so this keeps order);
+        # `pre` is None when the caller cannot take statements (expression position)
         stored = {n.id for n in _own_nodes(fn) if isinstance(n, ast.Name) and isinstance(n.ctx, (ast.Store, ast.Del))}
-        for p, v in mapping.items():
-            if p in stored and not isinstance(v, ast.Name):
-                return None
+        need_local = [p_ for p_, v in mapping.items() if (p_ in stored) or not (_simple(v) or _pure_literal(v))]
+        if pre is None:
+            return None if need_local else mapping
+        order = [p_ for p_ in ([params_all[0]] if is_method and params_all else []) + params + [x.arg for x in fn.args.kwonlyargs] if p_ in need_local]
+        for p_ in order:
+            v = mapping[p_]
+            local = ast.Name(id=p_ + "__h" if p_ in self._caller_names else p_, ctx=ast.Store())
+            pre.append(ast.Assign(targets=[local], value=v))
+            mapping[p_] = ast.Name(id=local.id, ctx=ast.Load())
         return mapping
 
     def inline_helpers(self):
@@ -528,7 +539,9 @@ class Canon:
                     r = outer._resolve(call, caller_q, by_simple_name)
                     if r is not None and expr_helper(r[0]) is None:
                         fn, is_m, recv = r
-                        m = outer._bind(fn, call, is_m, recv)
+                        pre: list = []
+                        outer._caller_names = caller_names
+                        m = outer._bind(fn, call, is_m, recv, pre)
                         if m is not None:
                             body = copy.deepcopy([s for s in fn.body if not _is_docstring(s)])
                             # helper locals that would clobber a caller name read later get a suffix
@@ -555,6 +568,7 @@ class Canon:
                                 # `a, b = (a, b)` left over from returning locals under their own names
                                 new = [x for x in new if not (isinstance(x, ast.Assign) and len(x.targets) == 1
                                                               and ast.unparse(x.targets[0]).strip("()") == ast.unparse(x.value).strip("()"))]
+                                new = pre + new
                                 for x in new:
                                     ast.copy_location(x, st)
                                     for sub in ast.walk(x):
@@ -869,6 +883,54 @@ class Canon:
         self.lower_conditional_callee()
         ast.fix_missing_locations(self.tree)
         return self.stats
+
+
+def relocate(modname: str, tree: ast.Module) -> dict:
+    """Functions of the pinned tree that were MOVED (nested function lifted to an outer scope or to module / class level, a
+    closure turned into a method, or the reverse) keep their pinned qualified name for the analysis: when a pinned name is
+    missing from the current tree and exactly one function with the same simple name exists under a non-pinned qualified name
+    in the same module, that function (and everything nested in it) is indexed under the pinned name.  The mapping is stored on
+    the def nodes as `_vq` and returned {actual qualified name: pinned qualified name}.  Nothing else about the function
+    changes; rules see its real body, parameters and position."""
+    ref = reference().get(modname, {})
+    ref_funcs = set(ref.get("functions", {}))
+    if not ref_funcs:
+        return {}
+    actual = {}
+
+    def walk(body, prefix):
+        for st in body:
+            if isinstance(st, (ast.FunctionDef, ast.AsyncFunctionDef)):
+                actual.setdefault(prefix + st.name, st)
+                walk(st.body, prefix + st.name + ".")
+            elif isinstance(st, ast.ClassDef):
+                walk(st.body, prefix + st.name + ".")
+            elif isinstance(st, (ast.If, ast.Try, ast.With, ast.For, ast.While)):
+                for fld in ("body", "orelse", "finalbody"):
+                    walk(getattr(st, fld, []) or [], prefix)
+
+    walk(tree.body, "")
+    missing = sorted((q for q in ref_funcs if q not in actual), key=lambda q: q.count("."))
+    mapping = {}
+    for q in missing:
+        if any(q.startswith(m + ".") for m in mapping.values()):
+            continue  # nested in a function that was itself relocated: follows its parent
+        parent_missing = ".".join(q.split(".")[:-1])
+        if parent_missing and parent_missing not in actual and parent_missing in ref_funcs and parent_missing not in mapping.values():
+            continue  # the enclosing pinned function is gone as well: not a move of this function alone
+        simple = q.split(".")[-1]
+        cands = [a for a in actual if a.split(".")[-1] == simple and a not in ref_funcs and a not in mapping
+                 and not any(a.startswith(m + ".") for m in mapping)]
+        if len(cands) == 1:
+            mapping[cands[0]] = q
+    for a, q in mapping.items():
+        actual[a]._vq = q
+    return mapping
+
+
+def vq(node, prefix: str) -> str:
+    """qualified name of a def node for the analysis: the pinned name of a relocated function, else prefix + name"""
+    return getattr(node, "_vq", None) or (prefix + node.name)
 
 
 def canonicalise(modname: str, tree: ast.Module) -> dict:
